@@ -4,4 +4,5 @@ import EqsigVerif.Lemmas.Peaks.Kappa
 import EqsigVerif.Lemmas.Peaks.Segments
 import EqsigVerif.Lemmas.Peaks.Orig
 import EqsigVerif.Lemmas.Peaks.Shape
+import EqsigVerif.Lemmas.Peaks.PType
 /-! umbrella for the helper lemmas on `Model/Peaks.lean` (C11, C13) -/
